@@ -168,12 +168,12 @@ def build(repo):
     for pp, word, ar in (("true", "inc", "wrapping_add"), ("false", "dec", "wrapping_sub")):
         for accn, accv, accw in (("", "false", "accumulator free"), ("_acc", "true", "accumulator holds a live value")):
             add("pp_short_%s%s" % (word, accn), H16 % {"name": "pp_short_%s%s" % (word, accn), "what": "short variable, %s, %s" % (word, accw), "vt": "Short", "operand": abs16, "pp": pp, "arith": ar, "acc": accv},
-                ["C01"], "plusplus-short-%s%s" % (word, accn.replace("_", "-")), "16-bit %s of a short (%s): value +-1 mod 2^16, X/Y and a live A preserved, flags belief true" % (word, accw))
+                ["C01", "C15"], "plusplus-short-%s%s" % (word, accn.replace("_", "-")), "16-bit %s of a short (%s): value +-1 mod 2^16, X/Y and a live A preserved, flags belief true" % (word, accw))
             add("pp_shortptr_x_%s%s" % (word, accn), H16 % {"name": "pp_shortptr_x_%s%s" % (word, accn), "what": "array of shorts indexed by X, %s, %s" % (word, accw), "vt": "ShortPtr", "operand": absx, "pp": pp, "arith": ar, "acc": accv},
-                ["C01"], "plusplus-shortptr-x-%s%s" % (word, accn.replace("_", "-")), "16-bit %s of v[X] (array of shorts, %s): value, registers, flags belief" % (word, accw))
+                ["C01", "C15"], "plusplus-shortptr-x-%s%s" % (word, accn.replace("_", "-")), "16-bit %s of v[X] (array of shorts, %s): value, registers, flags belief" % (word, accw))
         sign = "wrapping_add" if pp == "true" else "wrapping_sub"
         add("pp_char_%s" % word, H8 % {"name": "pp_char_%s" % word, "what": "char variable, %s" % word, "operand": abs8, "pp": pp, "check": "m.lo == m0.lo.%s(1) && m.hi == m0.hi && m.a == m0.a && m.x == m0.x && m.y == m0.y" % sign, "val": "m.lo"},
-            ["C01"], "plusplus-char-%s" % word, "8-bit %s of a char: value, registers, flags belief (N and Z)" % word)
+            ["C01", "C15"], "plusplus-char-%s" % word, "8-bit %s of a char: value, registers, flags belief (N and Z)" % word)
         add("pp_x_%s" % word, H8 % {"name": "pp_x_%s" % word, "what": "register X, %s" % word, "operand": "ExprType::X", "pp": pp, "check": "m.x == m0.x.%s(1) && m.lo == m0.lo && m.a == m0.a && m.y == m0.y" % sign, "val": "m.x"},
             ["C01", "C15"], "plusplus-x-%s" % word, "%s of X: value, other registers, flags belief" % word)
         add("pp_y_%s" % word, H8 % {"name": "pp_y_%s" % word, "what": "register Y, %s" % word, "operand": "ExprType::Y", "pp": pp, "check": "m.y == m0.y.%s(1) && m.lo == m0.lo && m.a == m0.a && m.x == m0.x" % sign, "val": "m.y"},
